@@ -134,7 +134,14 @@ fn oracle_docs(rep: &mut Report, ex: &mut Expat, rng: &mut Rng, n: usize) {
         let loc: &str = match derived_loc { Some(l) => l, None => loc };
         if derived_loc.is_none() { attrs.push_str(&format!(" {}", in_attr(rng, "text-loc", loc))); }
         attrs.push_str(&format!(" {}", in_attr(rng, "text-offset", &fstr_ref(off))));
-        if outside_cls { attrs.push_str(" class=\"d-text-outside\""); }
+        let vertical_cls = rng.chance(1, 4);
+        match (outside_cls, vertical_cls) {
+            (true, true) => attrs.push_str(if rng.chance(1, 2) { " class=\"d-text-outside d-text-vertical\"" } else { " class=\"d-text-vertical d-text-outside\"" }),
+            (true, false) => attrs.push_str(" class=\"d-text-outside\""),
+            (false, true) => attrs.push_str(" class=\"d-text-vertical\""),
+            _ => {}
+        }
+        if vertical_cls { st.tally("vertical"); }
         // further text-specific attributes: all must move off the shape; text-dxy / -dx / -dy shift the anchor
         let (mut tdx, mut tdy) = (0.0f64, 0.0f64);
         if rng.chance(1, 3) { let v = *rng.pick(&["1", "1.5", "2", "0.75"]); attrs.push_str(&format!(" {}", in_attr(rng, "text-lsp", v))); st.tally("extra=text-lsp"); }
@@ -190,7 +197,9 @@ fn oracle_docs(rep: &mut Report, ex: &mut Expat, rng: &mut Rng, n: usize) {
             }
         }
         let got: Vec<String> = if lines.len() > 1 { spans.clone() } else { vec![direct.clone()] };
-        let want: Vec<String> = if lines.len() > 1 { lines.iter().map(|l| if l.is_empty() { "\u{200B}".to_string() } else { l.clone() }).collect() } else { lines.clone() };
+        let mut want: Vec<String> = if lines.len() > 1 { lines.iter().map(|l| if l.is_empty() { "\u{200B}".to_string() } else { l.clone() }).collect() } else { lines.clone() };
+        // vertical text is written column by column from the right: the tspans come in reverse order
+        if vertical_cls && lines.len() > 1 { want.reverse(); }
         if got != want {
             fail(rep, "content", format!("generated text is {:?}, the author wrote {:?}", got, want));
             continue;
@@ -218,6 +227,26 @@ fn oracle_docs(rep: &mut Report, ex: &mut Expat, rng: &mut Rng, n: usize) {
         match (gx, gy) {
             (Some(x), Some(y)) if (x - ex_x).abs() <= 0.0011 && (y - ex_y).abs() <= 0.0011 => {}
             other => { fail(rep, "anchor", format!("text anchored at {:?}, text-loc={loc} offset={off} outside={outside} of {:?} is ({ex_x}, {ex_y})", other, bb)); continue; }
+        }
+        // alignment classes: the side of the box the text sits at, seen from the text (flipped when it is
+        // outside), per axis, with the -vertical suffix for vertical text; nothing for the centre of an axis
+        {
+            let side = |inside_name: &str, outside_name: &str| -> String { format!("d-text-{}{}", if outside { outside_name } else { inside_name }, if vertical_cls { "-vertical" } else { "" }) };
+            let l0 = edge_loc.as_deref().map(|l| &l[..1]).unwrap_or(loc);
+            let mut want_cls: Vec<String> = vec![];
+            if l0.starts_with('t') { want_cls.push(side("top", "bottom")); }
+            if l0.starts_with('b') { want_cls.push(side("bottom", "top")); }
+            if l0.ends_with('l') { want_cls.push(side("left", "right")); }
+            if l0.ends_with('r') { want_cls.push(side("right", "left")); }
+            want_cls.sort();
+            let cls = text_attrs.iter().find(|(k, _)| k == "class").map(|(_, v)| v.clone()).unwrap_or_default();
+            let fam = ["d-text-top", "d-text-bottom", "d-text-left", "d-text-right", "d-text-top-vertical", "d-text-bottom-vertical", "d-text-left-vertical", "d-text-right-vertical"];
+            let mut got_cls: Vec<String> = cls.split_whitespace().filter(|c| fam.contains(c)).map(|c| c.to_string()).collect();
+            got_cls.sort();
+            if got_cls != want_cls || !cls.split_whitespace().any(|c| c == "d-text") {
+                fail(rep, "alignment", format!("text element has classes {cls:?}; text-loc={loc} outside={outside} vertical={vertical_cls} asks for d-text and {want_cls:?}"));
+                continue;
+            }
         }
         // the shape keeps its geometry and loses the text-specific attributes
         if let Some(sa) = shape_attrs {
